@@ -106,6 +106,8 @@ func (am *YAMLAccountManager) Update(account hotline.Account, newLogin string) e
 
 	// If the login has changed, rename the account file.
 	if account.Login != newLogin {
+		oldLogin := account.Login
+
 		err := os.Rename(
 			filepath.Join(am.accountDir, path.Join("/", account.Login)+".yaml"),
 			filepath.Join(am.accountDir, path.Join("/", newLogin)+".yaml"),
@@ -117,7 +119,8 @@ func (am *YAMLAccountManager) Update(account hotline.Account, newLogin string) e
 		account.Login = newLogin
 		am.accounts[newLogin] = account
 
-		delete(am.accounts, account.Login)
+		// account.Login already holds the new login here: remove the entry of the old one.
+		delete(am.accounts, oldLogin)
 	}
 
 	out, err := yaml.Marshal(&account)
